@@ -4,6 +4,7 @@ import MimeModel.Model.Reader
 import MimeModel.Gen.Tree
 import MimeModel.Spec.All
 import MimeModel.Spec.Json
+import MimeModel.Spec.Zip
 /-
   Line-protocol driver for the correspondence check (core Lean only; compiled).
   Input : one operation per line, `op args... => go-result`
@@ -146,6 +147,58 @@ def isAsciiBytes (b : Bytes) : Bool := b.all (· < 0x80)
 
 def chainStr (c : List Info) : String :=
   String.intercalate "," (c.map fun i => bhex i.mime ++ "|" ++ bhex i.ext)
+
+/-- the limit changes in the middle of a detection (`limflip`: during DetectReader's read; `matchflip`:
+    during the tree walk): the answer must be the sequential answer for one of the two limits -/
+def flipJudge (goRes : String) : String :=
+  match goRes.splitOn " " with
+  | [ecls, got, a, b] =>
+    let jsonHex := bhex (ofString "application/json")
+    let isJ : String → Bool := fun r => (r.splitOn jsonHex).length > 1
+    if ecls != "nil" then "SPEC C05:unexpected-error-class"
+    else if got == a || got == b then "OK"
+    else "SPEC C06:result-is-not-a-sequential-result-for-either-limit ; SPEC C03:path-is-not-the-first-match-path-for-either-limit"
+      ++ (if isJ a && isJ b && !isJ got then " ; SPEC C08:json-document-not-reported-when-the-limit-changes-during-detection" else "")
+  | _ => "SPEC C01:no-result(" ++ goRes ++ ")"
+
+/-- the hypotheses of `C19.layout_forward` (all decidable), for the first entry `e1`, the entries
+    `mid` in front of the marker entry `em` -/
+def layoutHyp (e1 : Spec.Zip.Entry) (mid : List Spec.Zip.Entry) (em : Spec.Zip.Entry) (total : Nat) (mso : Bool) : Bool :=
+  decide (∀ e ∈ e1 :: mid ++ [em], e.WF) && decide (∀ e ∈ e1 :: mid, e.Clean) && decide (∀ e ∈ mid, e.Realistic) &&
+  decide (mid.length ≤ 4) &&
+  decide (e1.csizeField + 49 ≤ 30 + e1.name.length + e1.extra.length + e1.data.length + e1.desc.length) &&
+  decide (total < 4294967296) && (!mso || msoSkipFiles.any (fun sf => hasPrefix e1.name sf))
+
+/-- `ziplayout`: (1) the layout specification `Spec.Zip.archive` reproduces the bytes the real writer
+    produced; (2) whenever the hypotheses of `C19.layout_forward` hold for a marker, the real
+    detector must have answered true (the theorem, replayed on the implementation) -/
+def zipLayoutJudge (raw : Bytes) (goRes : String) : String :=
+  match goRes.splitOn " " with
+  | ["!"] => "SKIP not-a-readable-zip"
+  | [verd, ents, tailH] =>
+    let es : List Spec.Zip.Entry := if ents == "~" then [] else (ents.splitOn ";").filterMap fun e =>
+      match (e.splitOn "|").map (fun h => if h == "-" then some [] else unhex h) with
+      | [some f, some n, some x, some d, some s] => some ⟨f, n, x, d, s⟩
+      | _ => none
+    let tail := if tailH == "-" then [] else (unhex tailH).getD []
+    if Spec.Zip.archive es tail != raw then "DIFF ziplayout spec-image-differs-from-writer" else
+    let checks : List (Det × Nat) := [(Gen.d_Docx, 0), (Gen.d_Xlsx, 1), (Gen.d_Pptx, 2), (Gen.d_Jar, 3)]
+    let v := verd.toList
+    let bad := checks.filterMap fun (d, i) =>
+      match d with
+      | .expr (.prim (.zipContains sig mso)) =>
+        (match es with
+         | e1 :: restE =>
+           -- the first entry after e1 whose name starts with the marker
+           let mid := restE.takeWhile (fun e => !hasPrefix e.name sig)
+           (match restE.drop mid.length with
+            | em :: _ =>
+              if layoutHyp e1 mid em raw.length mso && v.getD i '?' != 'T' then some s!"layout-theorem-{i}" else none
+            | [] => none)
+         | [] => none)
+      | _ => none
+    if bad.isEmpty then "OK" else "SPEC C19:marker-among-the-first-six-entries-not-found(" ++ String.intercalate "," bad ++ ")"
+  | _ => "SPEC C01:no-result(" ++ goRes ++ ")"
 
 def handle (line : String) : String :=
   match line.splitOn " => " with
@@ -397,7 +450,16 @@ def handle (line : String) : String :=
           let s5 := if ecls != "nil" && ecls != "sentinel" then "SPEC C05:unexpected-error-class" else ""
           let s6 := if ecls == "sentinel" && !mustFail && ea.isNone then "SPEC C05:spurious-error" else ""
           let s7 := if rres == "NILMIME" then "SPEC C01:nil-MIME-returned" else ""
-          let all := [d1, s1, s2, s3, s4, s5, s6, s7].filter (· != "")
+          -- the result of a successful DetectReader, judged against the header the limit defines (C07, C02)
+          let s8 := if ecls == "nil" && !mustFail && !(ea.isSome && l != 0) then
+              (let chainStr := (rres.splitOn "/").headD ""
+               let ch : List (Bytes × Bytes) := (chainStr.splitOn ",").filterMap fun e =>
+                 match e.splitOn "|" with
+                 | [m, x] => (unhex m).map fun mb => (mb, if x == "-" then [] else (unhex x).getD [])
+                 | _ => none
+               Spec.walkSpec data l ch [])
+            else ""
+          let all := [d1, s1, s2, s3, s4, s5, s6, s7, s8].filter (· != "")
           if all.isEmpty then "OK" else String.intercalate " ; " all
         | _ => "SPEC C01:no-result(" ++ goRes ++ ")"
       | _, _ => "BAD args"
@@ -432,7 +494,15 @@ def handle (line : String) : String :=
           let m := if Cust.tar h then "T" else "F"
           let d := if m == tv then "" else s!"DIFF det:Tar model={m}"
           let isTar := (chain.splitOn ",").any (fun e => (e.splitOn "|").head? == some "6170706c69636174696f6e2f782d746172")
-          let s1 := if kind == "ok" && earlier == "n" && h.length ≥ 512 && !isTar &&
+          -- a higher-priority root format excuses the archive only if it is one of those the property
+          -- lists in front of tar (`Spec.tarOutrankers`, proved equal to the regenerated order in Props/C18)
+          let excused := match earlier.splitOn ":" with
+            | ["y", mh] =>
+              (match Gen.builtin.children.find? (fun c => bhex c.info.mime == mh) with
+               | some c => Spec.tarOutrankers.contains c.info.name
+               | none => false)
+            | _ => false
+          let s1 := if kind == "ok" && !excused && h.length ≥ 512 && !isTar &&
                       !containsSub (h.take 100) Cust.gpkgMarker then "SPEC C18:conforming-archive-not-tar" else ""
           let s2 := if kind == "bad" && isTar then "SPEC C18:corrupted-header-still-tar" else ""
           let s3 := if isTar && tv != "T" then "SPEC C18:tar-reported-without-tar-verdict" else ""
@@ -442,6 +512,10 @@ def handle (line : String) : String :=
           if all.isEmpty then "OK" else String.intercalate " ; " all
         | _ => "SPEC C01:no-result(" ++ goRes ++ ")"
       | _, _ => "BAD args"
+    | ["ziplayout", hx] =>
+      match unhex hx with
+      | some raw => zipLayoutJudge raw goRes
+      | none => "BAD args"
     | ["zip", _hx] =>
       match goRes.splitOn " " with
       | [chain, names] =>
@@ -584,14 +658,19 @@ def handle (line : String) : String :=
         let all := [d, sp].filter (· != "")
         if all.isEmpty then "OK" else String.intercalate " ; " all
       | _ => "SPEC C01:no-result(" ++ goRes ++ ")"
-    | ["dhist", _lim, items] =>
+    | ["dhist", lim, items] =>
       let ins := items.splitOn ","
       let outs := goRes.splitOn ";"
       if ins.length != outs.length then "SPEC C01:no-result(" ++ goRes ++ ")" else
       let pairs := ins.zip outs
       let bad := pairs.any fun p => pairs.any fun q => p.1 == q.1 && p.2 != q.2
+      -- inputs that agree on the examined header (the first `lim` bytes) must get the same answer
+      let l := lim.toNat?.getD 0
+      let hdr : String → String := fun h => if l == 0 then h else String.ofList (h.toList.take (2 * l))
+      let beyond := pairs.any fun p => pairs.any fun q => p.1 != q.1 && hdr p.1 == hdr q.1 && p.2 != q.2
       let modi := outs.any (fun o => o.endsWith "!MODIFIED")
       if bad then "SPEC C04:same-input-different-result-within-a-sequence"
+      else if beyond then "SPEC C04:result-depends-on-bytes-beyond-the-limit"
       else if modi then "SPEC C04:input-buffer-modified" else "OK"
     | ["jcap", cap, q, hx] =>
       match parseNat cap, unhex hx with
@@ -609,13 +688,8 @@ def handle (line : String) : String :=
           hasPrefix mime (ofString "model/gltf+json") || hasPrefix mime (ofString "application/x-ndjson")
         if d > Gen.Json.maxRecursion + 1 && jsonFamily then "SPEC C16:nesting-beyond-the-cap-reported-as-json" else "OK"
       | _ => "SPEC C16:detection-did-not-survive-the-bomb(" ++ goRes ++ ")"
-    | ["limflip", _l1, _l2, _hx] =>
-      match goRes.splitOn " " with
-      | [ecls, got, a, b] =>
-        if ecls != "nil" then "SPEC C05:unexpected-error-class"
-        else if got == a || got == b then "OK"
-        else "SPEC C06:result-is-not-a-sequential-result-for-either-limit ; SPEC C03:path-is-not-the-first-match-path-for-either-limit"
-      | _ => "SPEC C01:no-result(" ++ goRes ++ ")"
+    | ["limflip", _l1, _l2, _hx] => flipJudge goRes
+    | ["matchflip", _l1, _l2, _hx] => flipJudge goRes
     | ["fmt", th, vh] =>
       match unhex th, unhex vh with
       | some t, some v =>
